@@ -143,36 +143,33 @@ theorem arrCount_sound {m : Module} {o : Oracle} {w : SView} (href : refStruct m
 /-! ### completeness -/
 
 /-- an assignment made of R-facts is below the model's environment on statically covered refs -/
-theorem env_le_of_facts (m : Module) (hm : refModule m = true) (hwfm : moduleWF m = true)
-    (hlocm : reqLocalModule m = true) (n : Nat) (w : SView) (href : refStruct m w.sd = true)
-    (hloc : reqLocal w.sd = true) (hwf : viewWF w = true) (ρ : Env) (refs : List (List String))
+theorem env_le_of_facts (m : Module) {P : StructDef → Prop} (hm : Closed m P) (hwfm : moduleWF m = true)
+    (n : Nat) (w : SView) (hP : P w.sd) (hwf : viewWF w = true) (ρ : Env) (refs : List (List String))
     (hr : ∀ p v, ρ.read p = some v → RFact m w (.val p v))
     (hh : ∀ p c, ρ.has p = some c → RFact m w (.pres p c))
     (hp : ∀ k v, ρ.param k = some v → w.param k = some v) (hl : ρ.lv = none)
     (hn : ∀ r ∈ refs, need m n w.sd r = true) : LeOn refs ρ (envOf (G m n) w none) := by
   refine ⟨?_, ?_, ?_, ?_⟩
   · intro p hp' v hv
-    exact G_complete m hm hwfm hlocm n w _ (hr p v hv) href hloc hwf (hn p hp')
+    exact G_complete m hm hwfm n w _ (hr p v hv) hP hwf (hn p hp')
   · intro p hp' c hc
-    exact G_complete m hm hwfm hlocm n w _ (hh p c hc) href hloc hwf (hn p hp')
+    exact G_complete m hm hwfm n w _ (hh p c hc) hP hwf (hn p hp')
   · intro k v hv
     exact hp k v hv
   · rw [hl]; exact OLe.none _
 
-theorem presence_complete (m : Module) (hm : refModule m = true) (hwfm : moduleWF m = true)
-    (hlocm : reqLocalModule m = true) (n : Nat) (w : SView) (href : refStruct m w.sd = true)
-    (hloc : reqLocal w.sd = true) (hwf : viewWF w = true) {x : String} {f : Field} {b : Bool}
+theorem presence_complete (m : Module) {P : StructDef → Prop} (hm : Closed m P) (hwfm : moduleWF m = true)
+    (n : Nat) (w : SView) (hP : P w.sd) (hwf : viewWF w = true) {x : String} {f : Field} {b : Bool}
     (hf : w.sd.field x = some f) (h : RFact m w (.pres [x] b)) (hn : need m (n + 1) w.sd [x] = true) :
     hasField (G m n) w f = some b := by
-  have := G_complete m hm hwfm hlocm (n + 1) w _ h href hloc hwf hn
+  have := G_complete m hm hwfm (n + 1) w _ h hP hwf hn
   simp only [G] at this
   rw [step_has_nil m _ w hf] at this
   exact this
 
 /-- what the accessor of an array field computes once the field's references are covered -/
-theorem array_storage_complete (m : Module) (hm : refModule m = true) (hwfm : moduleWF m = true)
-    (hlocm : reqLocalModule m = true) (n : Nat) (w : SView) (href : refStruct m w.sd = true)
-    (hloc : reqLocal w.sd = true) (hwf : viewWF w = true) {x : String} {f : Field}
+theorem array_storage_complete (m : Module) {P : StructDef → Prop} (hm : Closed m P) (hwfm : moduleWF m = true)
+    (n : Nat) (w : SView) (hP : P w.sd) (hwf : viewWF w = true) {x : String} {f : Field}
     (hf : w.sd.field x = some f) {start size : Expr} {el : PType} {es : Nat} {bo : ByteOrder}
     (hk : f.kind = .phys start size (.array el es) bo)
     (hfstart : foldFree start = true) (hfsize : foldFree size = true)
@@ -185,23 +182,24 @@ theorem array_storage_complete (m : Module) (hm : refModule m = true) (hwfm : mo
   have hrefs := need_refs hf hn
   rw [evalR_eq_eval _ _ hfstart] at hs
   rw [evalR_eq_eval _ _ hfsize] at hz
-  have hle := fun refs hn' => env_le_of_facts m hm hwfm hlocm n w href hloc hwf ρ refs hr hh hp hl hn'
+  have hle := fun refs hn' => env_le_of_facts m hm hwfm n w hP hwf ρ refs hr hh hp hl hn'
   have hs' := eval_le_on start (hle _
     (fun r hr' => hrefs r (by
       simp only [fieldRefs, hk, List.mem_append]; exact Or.inr (Or.inl (Or.inl hr'))))) _ hs
   have hz' := eval_le_on size (hle _
     (fun r hr' => hrefs r (by
       simp only [fieldRefs, hk, List.mem_append]; exact Or.inr (Or.inl (Or.inr hr'))))) _ hz
-  have hhas := presence_complete m hm hwfm hlocm n w href hloc hwf hf hpres hn
+  have hhas := presence_complete m hm hwfm n w hP hwf hf hpres hn
   exact physStorage_of hhas (evalInt_of_eval hz') (evalInt_of_eval hs') hz0 hs0
 
 /-- **Completeness for arrays**: R's `count` and `elem` facts are reported by the model. -/
-theorem array_complete (m : Module) (hm : refModule m = true) (hwfm : moduleWF m = true)
-    (hlocm : reqLocalModule m = true) (n : Nat) (w : SView) (href : refStruct m w.sd = true)
-    (hloc : reqLocal w.sd = true) (hwf : viewWF w = true) {x : String} {f : Field}
+theorem array_complete (m : Module) {P : StructDef → Prop} (hm : Closed m P) (hwfm : moduleWF m = true)
+    (n : Nat) (w : SView) (hP : P w.sd) (hwf : viewWF w = true) {x : String} {f : Field}
     (hf : w.sd.field x = some f) (hn : need m (n + 1) w.sd [x] = true) :
     (∀ c, RFact m w (.count x c) → arrCount (G m n) w f = some c) ∧
     (∀ i v, RFact m w (.elem x i v) → arrElem (G m n) w f i = some v) := by
+  have href := hm.ref _ hP
+  have hloc := hm.loc _ hP
   constructor
   · intro c h
     cases h with
@@ -221,7 +219,7 @@ theorem array_complete (m : Module) (hm : refModule m = true) (hwfm : moduleWF m
         unfold refField at hff; rw [hk] at hff; simp at hff
       | scalar k bits req =>
         obtain ⟨hcond, hkk, hfstart, hfsize, hfreq, hbits, hu, hes8⟩ := ref_array_inv href hf hk
-        have hst := array_storage_complete m hm hwfm hlocm n w href hloc hwf hf hk hfstart hfsize hn
+        have hst := array_storage_complete m hm hwfm n w hP hwf hf hk hfstart hfsize hn
           hpres ρ hr hh hp hl hs hz hs0 hz0
         simp only [arrCount, hk, hst, Option.some.injEq]
         rw [if_neg (by omega)]
@@ -246,7 +244,7 @@ theorem array_complete (m : Module) (hm : refModule m = true) (hwfm : moduleWF m
       rw [hf] at hf'; cases hf'
       obtain ⟨hcond, hkk, hfstart, hfsize, hfreq, hbits, hu, hes8⟩ := ref_array_inv href hf hk
       have hespos : 0 < es := by omega
-      have hst := array_storage_complete m hm hwfm hlocm n w href hloc hwf hf hk hfstart hfsize hn
+      have hst := array_storage_complete m hm hwfm n w hP hwf hf hk hfstart hfsize hn
         hpres ρ hr hh hp hl hs hz hs0 hz0
       have hlf := reqLocal_of_field hloc hf
       unfold reqLocalField at hlf
